@@ -42,6 +42,7 @@ from quara.objects.operators import compose_qoperations, tensor_product
 from quara.protocol.qtomography.standard.standard_qst import StandardQst
 from quara.protocol.qtomography.standard.standard_povmt import StandardPovmt
 from quara.protocol.qtomography.standard.standard_qpt import StandardQpt
+from quara.protocol.qtomography.standard.standard_qmpt import StandardQmpt
 from quara.protocol.qtomography.standard.linear_estimator import LinearEstimator
 from quara.protocol.qtomography.standard.projected_linear_estimator import ProjectedLinearEstimator
 from quara.protocol.qtomography.standard.loss_minimization_estimator import LossMinimizationEstimator
@@ -342,7 +343,7 @@ class Fresh:
         elif k == "lopt":
             o = build_lopt(en.meta["spec"], en.obj)
         elif k == "aopt":
-            o = build_aopt(en.meta["spec"])
+            o = build_aopt(en.meta["spec"], birth_atol=en.meta.get("birth_atol", ATOL0))
         elif k == "loss":
             o = LOSSES[en.meta["cls"]][0]()
         elif k == "algo":
@@ -371,6 +372,9 @@ def build_qt(spec, get, live=None):
     if k == "qpt":
         return StandardQpt([get(i) for i in spec["states"]], [get(i) for i in spec["povms"]],
                            on_para_eq_constraint=spec["on_para_eq"], schedules="all", **kw)
+    if k == "qmpt":
+        return StandardQmpt([get(i) for i in spec["states"]], [get(i) for i in spec["povms"]], num_outcomes=spec["m"],
+                            on_para_eq_constraint=spec["on_para_eq"], schedules="all", **kw)
     raise ValueError(k)
 
 
@@ -386,12 +390,18 @@ def build_lopt(spec, live=None):
     return cls(spec["mode"], weights=w)
 
 
-def build_aopt(spec):
+def build_aopt(spec, birth_atol=None):
+    """`spec['eps']` None = the constructor default (global tolerance / 10 *at construction*).  The equal-valued fresh
+    counterpart of such an option is built with that value spelled out (`birth_atol`/10): the live object is never asked
+    for `.eps` by the harness, so a lazily resolved default cannot be pinned by looking at it."""
+    eps = spec.get("eps", 1e-9)
+    if eps is None and birth_atol is not None:
+        eps = birth_atol / 10.0
     return ProjectedGradientDescentBacktrackingOption(
         on_algo_eq_constraint=spec["eq"], on_algo_ineq_constraint=spec["ineq"], mode_proj_order=spec["order"],
         max_iteration_proj_physical=spec["maxit"], max_iteration_optimization=spec.get("maxopt", 25),
         mode_stopping_criterion_gradient_descent="sum_absolute_difference_variable",
-        num_history_stopping_criterion_gradient_descent=1, eps=1e-9)
+        num_history_stopping_criterion_gradient_descent=1, eps=eps)
 
 
 def build_est(spec):
@@ -473,12 +483,12 @@ def snap_entry(en, W):
         ex = o.experiment
         return fast_digest([list(o.testers), o.calc_matA(), o.calc_vecB(), o.num_variables, o.num_schedules,
                             o.on_para_eq_constraint, o._template_qoperation, [list(map(tuple, s)) for s in ex.schedules],
-                            list(ex.states), list(ex.povms), list(ex.gates)])
+                            list(ex.states), list(ex.povms), list(ex.gates), list(ex.mprocesses)])
     if k == "lopt":
         return fast_digest([o.mode_weight, o.weights, o.weight_name])
     if k == "aopt":
-        return fast_digest([o.on_algo_eq_constraint, o.on_algo_ineq_constraint, o.var_start, o.mode_proj_order,
-                            o.max_iteration_proj_physical, o.max_iteration_optimization, o.eps])
+        # attributes are read from the instance dictionary: properties that resolve a default lazily are not triggered
+        return fast_digest(sorted((k_, repr(v)) for k_, v in vars(o).items()))
     return None   # loss / algo / estimator objects are reconfigured by design
 
 
@@ -511,6 +521,11 @@ def call(fn):
         return Raised(e)
 
 
+def _seed(p):
+    """integer seeds of the seeded queries: 0 (a legitimate seed) in a third of the cases"""
+    return 0 if p["i"] % 3 == 0 else int(p["i"])
+
+
 def pick(i, n):
     return i % n if n else 0
 
@@ -531,7 +546,8 @@ def _var_meta(o, W):
 
 QOPS = ("state", "povm", "gate", "mprocess")
 # operations that re-configure re-used service objects: role -> operand position
-STATEFUL = {"estimate": {"est": 0, "loss": 3, "algo": 5}, "loss_eval": {"loss": 0}, "algo_proj": {"algo": 0}}
+STATEFUL = {"estimate": {"est": 0, "loss": 3, "lopt": 4, "algo": 5, "aopt": 6}, "loss_eval": {"loss": 0, "lopt": 2},
+            "algo_proj": {"algo": 0, "aopt": 2}}
 # unary operations on q-operations: name -> (kinds, fn(o, p), result role)
 UNARY = {
     "is_physical": (QOPS, lambda o, p: o.is_physical()),
@@ -596,7 +612,7 @@ UNARY = {
     "dist_marginalize": (("dist",), lambda o, p: o.marginalize([pick(p["i"], len(o.shape))])),
     "dist_conditionalize": (("dist",), lambda o, p: o.conditionalize([0], [pick(p["i"], o.shape[0])])),
     "dist_getitem": (("dist",), lambda o, p: o[pick(p["i"], o.ps.size)]),
-    "dist_sampling": (("dist",), lambda o, p: o.execute_random_sampling(3 + p["i"] % 5, 2, random_generator=p["i"])),
+    "dist_sampling": (("dist",), lambda o, p: o.execute_random_sampling(3 + p["i"] % 5, 2, random_generator=_seed(p))),
 }
 
 
@@ -678,6 +694,8 @@ def run_op(op, get, W, atol_state):
         if which == 1:
             return matrix_util.calc_covariance_mat(matrix_util.replace_prob_dist(v), 10 + p["i"] % 90)
         return matrix_util.calc_covariance_mat(v, 10 + p["i"] % 90)
+    if k == "make_aopt":
+        return build_aopt(p["spec"])
     if k == "atol_set":
         Settings.set_atol(p["atol"])
         return None
@@ -691,7 +709,9 @@ def run_op(op, get, W, atol_state):
     if k == "qt_prob_dists":
         return get(a[0]).calc_prob_dists(get(a[1]))
     if k == "qt_empi_dists":
-        return get(a[0]).generate_empi_dists(get(a[1]), 20 + p["i"] % 50, p["i"])
+        return get(a[0]).generate_empi_dists(get(a[1]), 20 + p["i"] % 50, _seed(p))
+    if k == "qt_empi_dists_sequence":
+        return get(a[0]).generate_empi_dists_sequence(get(a[1]), [10 + p["i"] % 20, 40 + p["i"] % 50], _seed(p))
     if k == "loss_eval":
         loss, qt, lopt, data = get(a[0]), get(a[1]), get(a[2]), get(a[3])
         loss.set_from_standard_qtomography_option_data(qt, lopt, data, True, False)
@@ -801,6 +821,10 @@ def init_specs(g, tier_quick):
         add("qpt", "qt", {"qtkind": "qpt", "states": ["tsx", "tsy", "tsz", "tsz1"], "povms": ["tpx", "tpy", "tpz"],
                           "on_para_eq": True})
     qts = [e for e, k, _ in S if k == "qt"]
+    # measurement-process tomography: no datasets / estimates, only queries and data generation (its experiment object
+    # receives the true object in a copy — the tomography object itself must stay as it was)
+    add("qmpt", "qt", {"qtkind": "qmpt", "states": ["tsx", "tsy", "tsz", "tsz1"], "povms": ["tpx", "tpz"], "m": 2,
+                       "on_para_eq": bool(g.integers(0, 2))})
     for qt in qts:
         for j in range(3):
             add(f"d_{qt}_{j}", "data", {"qt": qt, "n": int(g.choice([10, 50, 200])), "u": g.random(64), "zeros": j == 2})
@@ -835,7 +859,8 @@ def init_specs(g, tier_quick):
         add(f"loss_{cls}", "loss", {"cls": cls})
     for j, (eq, ineq) in enumerate([(True, True), (True, False), (False, True), (False, False)]):
         add(f"ao{j}", "aopt", {"eq": eq, "ineq": ineq, "order": ["eq_ineq", "ineq_eq"][int(g.integers(0, 2))],
-                               "maxit": [30, 20][int(g.integers(0, 2))]})
+                               "maxit": [30, 20][int(g.integers(0, 2))], "eps": [None, 1e-9][int(g.integers(0, 2))]})
+    add("ao_default", "aopt", {"eq": True, "ineq": True, "order": "eq_ineq", "maxit": 30, "eps": None})
     add("algo0", "algo", {})
     add("algo1", "algo", {})
     add("est_lin", "est", {"cls": "linear"})
@@ -869,7 +894,7 @@ def build_world(S):
         elif kind == "lopt":
             W.add(eid, "lopt", build_lopt(spec), {"spec": spec})
         elif kind == "aopt":
-            W.add(eid, "aopt", build_aopt(spec), {"spec": spec})
+            W.add(eid, "aopt", build_aopt(spec), {"spec": spec, "birth_atol": Settings.get_atol()})
         elif kind == "loss":
             W.add(eid, "loss", LOSSES[spec["cls"]][0](), {"cls": spec["cls"]})
         elif kind == "algo":
@@ -996,10 +1021,22 @@ def gen_op(rng, W, step, atol_changed):
         if atol_changed:
             return {"op": "atol_restore", "args": [], "p": {}}
         return {"op": "atol_set", "args": [], "p": {"atol": rng.choice([1e-6, 1e-9, 1e-3, 1e-11])}}
+    if r < 0.765:
+        return {"op": "make_aopt", "args": [], "p": {"spec": {"eq": rng.random() < 0.7, "ineq": rng.random() < 0.7,
+                                                              "order": "eq_ineq", "maxit": 30, "eps": None}}}
     # tomography / estimation
     qts = by.get("qt", [])
     qt = rng.choice(qts)
     datas = [i for i in by.get("data", []) if e[i].meta["qt"] == qt]
+    if not datas:
+        # tomography objects without datasets (measurement-process tomography): queries and data generation only
+        kind = {"qst": "state", "povmt": "povm", "qpt": "gate", "qmpt": "mprocess"}[e[qt].meta["spec"]["qtkind"]]
+        objs = [i for i in by.get(kind, []) if e[i].obj.composite_system.num_e_sys == 1
+                and e[i].obj.composite_system[0].name == 0 and e[i].obj.num_outcomes == e[qt].meta["spec"].get("m")]
+        if not objs or rng.random() < 0.2:
+            return {"op": "qt_query", "args": [qt], "p": p}
+        return {"op": rng.choice(["qt_prob_dists", "qt_empi_dists", "qt_empi_dists", "qt_empi_dists_sequence"]),
+                "args": [qt, rng.choice(objs)], "p": p}
     x = rng.random()
     var = [rng.uniform(-0.6, 0.6) for _ in range(24)]
     if x < 0.08:
@@ -1011,7 +1048,8 @@ def gen_op(rng, W, step, atol_changed):
                 and (kind != "povm" or e[i].obj.num_outcomes == e[qt].meta["spec"].get("m"))]
         if not objs:
             return None
-        return {"op": rng.choice(["qt_prob_dists", "qt_empi_dists"]), "args": [qt, rng.choice(objs)], "p": p}
+        return {"op": rng.choice(["qt_prob_dists", "qt_empi_dists", "qt_empi_dists_sequence"]),
+                "args": [qt, rng.choice(objs)], "p": p}
     if W.fav is None:
         W.fav = rng.choice(["WSE", "FWSE", "WSE", "FWSE", "WRE", "FWRE"])
     if x < 0.40:
@@ -1073,6 +1111,7 @@ def _exec_history(S, ops, gen, nops, stop_on_first, subst, on_case):
             F = Fresh(W)
             # (i-a) the same operation on freshly constructed equal-valued arguments — evaluated first, on
             # value copies taken *before* the shared call
+            np.random.seed(1000003 + 2 * step)      # nothing explored here may depend on the global numpy stream:
             rf = call(lambda: run_op(op, F.get, W, None))
             nf = norm(rf.e if isinstance(rf, Raised) else rf, None)
             sub = (subst or {}).get(step)
@@ -1086,6 +1125,7 @@ def _exec_history(S, ops, gen, nops, stop_on_first, subst, on_case):
             if op["op"] in STATEFUL:
                 # state of the re-used service objects *before* the call (their setters rebind attributes)
                 pre = {i: copy.copy(W.e[args[i]].obj) for i in STATEFUL[op["op"]].values() if i < len(args)}
+            np.random.seed(2000003 + 2 * step)      # … it is reseeded differently before the two evaluations
             rs = call(lambda: run_op(op, getter, W, None))
             ns = norm(rs.e if isinstance(rs, Raised) else rs, None)
             if op["op"] == "atol_set":
@@ -1120,8 +1160,10 @@ def _exec_history(S, ops, gen, nops, stop_on_first, subst, on_case):
                     W.add(rid, "array", rs, _var_meta(W.e[args[0]].obj, W))
                 elif isinstance(rs, np.ndarray) and op["op"] in ("proj_eq_with_var", "proj_ineq_with_var"):
                     W.add(rid, "array", rs, dict(W.e[args[0]].meta))
-                elif op["op"] == "qt_empi_dists":
+                elif op["op"] == "qt_empi_dists" and W.e[args[0]].meta["spec"]["qtkind"] != "qmpt":
                     W.add(rid, "data", rs, {"qt": args[0]})
+                elif op["op"] == "make_aopt":
+                    W.add(rid, "aopt", rs, {"spec": op["p"]["spec"], "birth_atol": Settings.get_atol()})
             # (ii) snapshots of every operand and every earlier-derived object
             new = snapshot(W)
             changed = [eid for eid, d in snaps.items() if new.get(eid) != d]
@@ -1197,6 +1239,9 @@ def signature(S, ran, prob, W):
                 if req_changed:
                     return f"C13/reuse/algo/{cls}/func_proj-kept-from-first-call"
             return f"C13/reuse/algo/{cls}/same-request"
+        for role in ("aopt", "lopt"):
+            if role in carriers:
+                return f"C13/reuse/option/{type(W.e[a[pos[role]]].obj).__name__}/state-kept-from-first-use"
         who = "+".join(carriers) if carriers else "unexplained"
         return f"C13/reuse/{name}/{who}"
     before = sorted({o["op"] for o in ran[:-1]})
@@ -1495,9 +1540,44 @@ def sequence_clause(ctx, volume=1):
                                 f"(entry {k}: {a} vs {b})", rep)
 
 
+def experiment_copy_clause(ctx):
+    """Experiment.copy() is independent of its original: assigning into any of the five lists of the copy leaves the
+    original alone (the tomography classes plug the true object into such a copy)"""
+    from quara.qcircuit.experiment import Experiment
+    g = ctx.npgen("expcopy")
+    c = qobj.csys("qubit")
+    st, pv, gt = qobj.rand_state(g, c), qobj.rand_povm(g, c, 2), qobj.rand_gate(g, c)
+    mp = qobj.rand_mprocess(g, c, 2)[0]
+    variants = {
+        "state-mprocess-povm": dict(states=[st], gates=[], povms=[pv], mprocesses=[None],
+                                    schedules=[[("state", 0), ("mprocess", 0), ("povm", 0)]]),
+        "state-gate-povm": dict(states=[st, None], gates=[gt], povms=[pv], mprocesses=[],
+                                schedules=[[("state", 0), ("gate", 0), ("povm", 0)], [("state", 0), ("povm", 0)]]),
+    }
+    for name, kw in variants.items():
+        for lst in ("states", "gates", "povms", "mprocesses", "schedules"):
+            ex = Experiment(**{k: list(v) for k, v in kw.items()})
+            before = [id(x) for x in getattr(ex, lst)]
+            cp = ex.copy()
+            target = getattr(cp, lst)
+            new = {"states": st, "gates": gt, "povms": pv, "mprocesses": mp, "schedules": [("state", 0), ("povm", 0)]}[lst]
+            if len(target):
+                target[0] = new
+            else:
+                target.append(new)
+            after = [id(x) for x in getattr(ex, lst)]
+            ctx.case(("expcopy", name, lst), sample={"clause": "Experiment.copy", "experiment": name, "list": lst})
+            ctx.count("Experiment.copy independence checks")
+            if before != after or getattr(cp, lst) is getattr(ex, lst):
+                ctx.violate(f"C13/copy/Experiment/{lst}-shared-with-original",
+                            f"Experiment.copy(): assigning into the copy's `{lst}` changed the original ({name})",
+                            {"kind": "expcopy", "experiment": name, "list": lst})
+
+
 def oracle(ctx, volume=1):
     seen = set()
     basis_clause(ctx)
+    experiment_copy_clause(ctx)
     sequence_clause(ctx, volume)
     nhist, nops = ((300, 12) if ctx.quick else (3000, 30))
     workers = 1 if ctx.quick else max(1, min(12, (os.cpu_count() or 2) - 2))
@@ -1806,6 +1886,7 @@ def replay(ctx, data):
         return 1 if bad else 0
     before = len(ctx.violations)
     basis_clause(ctx)
+    experiment_copy_clause(ctx)
     for v in ctx.violations[before:]:
         print("  PROBLEM:", v["signature"], v["what"])
     return 1 if any(v["signature"] == data.get("signature") for v in ctx.violations[before:]) else 0
